@@ -91,6 +91,13 @@ func init() {
 	}
 	// the claim getters the checks read through are plain reads of the decoded field (a getter that substitutes another claim
 	// changes what every check compares)
+	obs = append(obs,
+		Ob{ID: "E8.verifier.constructor-binds-configuration", Fn: "client/rp.NewIDTokenVerifier", P: []string{"issuer", "clientID", "keySet"}, Kind: "ret any", Pat: "ret(&IDTokenVerifier{Issuer: $issuer, ClientID: $clientID, KeySet: $keySet})", Max: 1, Only: true,
+			Why: "the verifier checks the token against the issuer, client id and key set it was constructed for"},
+		Ob{ID: "E8.verifier.constructor-binds-configuration.only", Fn: "client/rp.NewIDTokenVerifier", Kind: "ret any", Max: 1},
+		Ob{ID: "E8.rp.verifier-from-own-configuration", Fn: "client/rp.(*relyingParty).IDTokenVerifier", P: []string{"rp"}, Kind: "call", Pat: "rp.NewIDTokenVerifier($rp.issuer, $rp.oauthConfig.ClientID, rp.NewRemoteKeySet($rp.httpClient, $rp.endpoints.JKWsURL), __)", Min: 1, Max: 1,
+			Why: "the relying party's verifier is built from its own issuer, client id and the discovered JWKS endpoint"},
+		Ob{ID: "E8.rp.verifier-from-own-configuration.only", Fn: "client/rp.(*relyingParty).IDTokenVerifier", Kind: "call", Pat: "rp.NewIDTokenVerifier(__)", Max: 1})
 	obs = append(obs, Ob{ID: "E8.claims.getter.GetIssuer", Fn: "oidc.(*TokenClaims).GetIssuer", P: []string{"c"}, Kind: "ret any", Pat: "ret($c.Issuer)", Why: "checks read the decoded claim itself"},
 		Ob{ID: "E8.claims.getter.GetIssuer.only", Fn: "oidc.(*TokenClaims).GetIssuer", P: []string{"c"}, Kind: "ret any", Nots: []string{"ret($c.Issuer)"}, Forbid: true, Why: "no other value is handed to the checks"})
 	obs = append(obs, Ob{ID: "E8.claims.getter.GetSubject", Fn: "oidc.(*TokenClaims).GetSubject", P: []string{"c"}, Kind: "ret any", Pat: "ret($c.Subject)", Why: "checks read the decoded claim itself"},
